@@ -53,6 +53,24 @@ KERNELS += [
                 (r"this->exam_info_sptr->set_radionuclide\(radionuclide\);", "self->exam_radionuclide = radionuclide;", 1)]),
 ]
 
+# writer side and the reader's key table: key strings become ids by ONE table applied to both kernels (same literal -> same id)
+KEYIDS = [(r'"radionuclide name(?:\[1\] := )?"', "KEY_RN_NAME"), (r'"radionuclide halflife \(sec\)(?:\[1\] := )?"', "KEY_RN_HALFLIFE"),
+          (r'"radionuclide branching factor(?:\[1\] := )?"', "KEY_RN_BRANCHING")]
+KERNELS += [
+    dict(name="K_write_rn_info", file="src/IO/interfile.cxx", cxx_name="write_interfile_radionuclide_info", func=r"write_interfile_radionuclide_info\(std::ostream& output_header, const ExamInfo& exam_info\)",
+         c_header="void K_write_rn_info(const struct RN* exam_radionuclide)", loops=0,
+         rules=[(r"const auto radionuclide = exam_info\.get_radionuclide\(\);", "const struct RN radionuclide = *exam_radionuclide;", 1),
+                (r'output_header << "number of radionuclides := 1\\n";', "(void)0;", 1),
+                (r'!radionuclide\.get_name\(\)\.empty\(\) && radionuclide\.get_name\(\) != "Unknown"', "!(radionuclide.name == NAME_EMPTY) && radionuclide.name != NAME_UNKNOWN", 1)]
+         + [(k, v, 1) for k, v in KEYIDS]
+         + [(r"output_header << (KEY_\w+) << radionuclide\.get_(name|half_life|branching_ratio)\(\) << '\\n';", r"K_EMIT_\2(\1, radionuclide.\2);", 3),
+            (r"radionuclide\.get_(half_life|branching_ratio)\(false\)", r"radionuclide.\1", 2)]),
+    dict(name="K_ifh_rn_keys", file="src/IO/InterfileHeader.cxx", cxx_name="InterfileHeader::InterfileHeader: the three radionuclide add_vectorised_key statements (statement kernel)",
+         func=r"InterfileHeader::InterfileHeader\(\)", span=(r'add_vectorised_key\("radionuclide name"', r'add_vectorised_key\("radionuclide branching factor", &\w+\);'),
+         c_header="void K_ifh_rn_keys(void)", loops=0,
+         rules=[(k, v, 1) for k, v in KEYIDS] + [(r"add_vectorised_key\((KEY_\w+), &(\w+)\);", r"K_BIND(\1, MEMBER_\2);", 3)]),
+]
+
 TYPES = ["schar", "uchar", "short", "ushort", "int", "uint"]
 CHK = ["--signed-overflow-check", "--div-by-zero-check", "--bounds-check", "--pointer-check", "--conversion-check", "--float-overflow-check", "--nan-check"]
 
@@ -84,6 +102,15 @@ def jobs(tier, gen_dir):
                    min_obligations=3, timeout=300, backend="sat"))
     out.append(Job("c10/K_ifh_radionuclide", HARNESS, "h_K_ifh_radionuclide", enforce="K_ifh_radionuclide", replace=["K_radionuclide_ctor", "K_db_get_radionuclide"],
                    kernels=["K_ifh_radionuclide"], flags=CHK, no_base_flags=True, min_obligations=3, timeout=300, backend="sat", replay="radionuclide"))
+    out.append(Job("c10/K_write_rn_info", HARNESS, "h_K_write_rn_info", enforce="K_write_rn_info", kernels=["K_write_rn_info"], flags=CHK, no_base_flags=True, min_obligations=3,
+                   timeout=300, backend="sat"))
+    out.append(Job("c10/K_ifh_rn_keys", HARNESS, "h_K_ifh_rn_keys", enforce="K_ifh_rn_keys", kernels=["K_ifh_rn_keys"], flags=CHK, no_base_flags=True, min_obligations=1,
+                   timeout=300, backend="sat"))
+    out.append(Job("c10/lemma_rn_roundtrip", HARNESS, "h_lemma_rn_roundtrip", kind="lemma", kernels=["K_write_rn_info", "K_ifh_rn_keys", "K_ifh_radionuclide"],
+                   replace=["K_write_rn_info", "K_ifh_rn_keys", "K_ifh_radionuclide"], flags=CHK, no_base_flags=True, min_obligations=2, timeout=300, backend="sat",
+                   replay="radionuclide"))
+    out.append(Job("c10/canary/lemma_rn_roundtrip", HARNESS, "h_lemma_rn_roundtrip", kind="canary", kernels=[], replace=["K_write_rn_info", "K_ifh_rn_keys", "K_ifh_radionuclide"],
+                   defines={"LEMMA_CANARY": None}, flags=[], no_base_flags=True, expect_fail=r"vacuity canary", timeout=300))
     out.append(Job("c10/canary/K_ifh_radionuclide", HARNESS, "h_K_ifh_radionuclide", enforce="K_ifh_radionuclide", replace=["K_radionuclide_ctor", "K_db_get_radionuclide"],
                    kernels=["K_ifh_radionuclide"], kind="canary", defines={"CANARY_K_ifh_radionuclide": None}, expect_fail=r"K_ifh_radionuclide\.postcondition",
                    no_base_flags=True, timeout=300))
@@ -111,7 +138,7 @@ import subprocess
 
 
 def replay(job, o, workroot, repo):
-    if "radionuclide" in job.name:
+    if "radionuclide" in job.name or "rn_" in job.name:
         from vlib import native
         exe = os.path.join(workroot, "c10_rn_replay")
         if not os.path.exists(exe):
